@@ -6,7 +6,9 @@ import (
 	"fmt"
 	"go/token"
 	"os"
+	"runtime"
 	"strings"
+	"sync/atomic"
 	"time"
 
 	"golang.org/x/tools/go/ssa"
@@ -64,27 +66,27 @@ type Failure struct {
 	Decs    []Dec
 	Nondet  []uint64
 	Chooses []int64
-	Env     []int64 // environment events in the order they completed (goroutine tier)
+	Env     []int64   // environment events in the order they completed (goroutine tier)
 	STrace  []TraceEv // library-level visible operations and environment events, in execution order
-	LibPrio bool    // found by the library-priority re-exploration (natively stageable schedule)
+	LibPrio bool      // found by the library-priority re-exploration (natively stageable schedule)
 }
 
 type PathResult struct {
-	Status       string // "ok", "infeasible", "fail", "inconclusive"
-	Reason       string
-	Failure      *Failure
-	Alts         [][]Dec
-	Decs         []Dec
-	Steps        int
-	Asserts      int // obligations discharged by the solver
-	AssertsFold  int // obligations that folded to true
-	Covers       []string
-	Witness      *Witness
-	Probe        *Witness // model of the path condition of a path the engine had to give up on
-	Inconclusive []string
-	FuncsSeen    map[string]bool
-	NDec         int
-	RaceChecks   int
+	Status                      string // "ok", "infeasible", "fail", "inconclusive"
+	Reason                      string
+	Failure                     *Failure
+	Alts                        [][]Dec
+	Decs                        []Dec
+	Steps                       int
+	Asserts                     int // obligations discharged by the solver
+	AssertsFold                 int // obligations that folded to true
+	Covers                      []string
+	Witness                     *Witness
+	Probe                       *Witness // model of the path condition of a path the engine had to give up on
+	Inconclusive                []string
+	FuncsSeen                   map[string]bool
+	NDec                        int
+	RaceChecks                  int
 	CrossChecked, CrossDisagree int
 }
 
@@ -96,6 +98,7 @@ type Witness struct {
 	Observes []ObsVal
 	Decs     []Dec
 	Env      []int64
+	Bound    bool // probe of a path that ended at its step / allocation bound
 }
 
 type ObsVal struct {
@@ -106,10 +109,11 @@ type ObsVal struct {
 }
 
 type Exec struct {
-	P   *Prog
-	ctx *Ctx
-	sol *Solver
-	alt *Solver // fallback solver for unknowns (may be nil)
+	cellsAlloc int // cells allocated by this path (see allocBound)
+	P          *Prog
+	ctx        *Ctx
+	sol        *Solver
+	alt        *Solver // fallback solver for unknowns (may be nil)
 
 	pc       []*Term
 	pcSet    map[*Term]bool
@@ -145,16 +149,16 @@ type Exec struct {
 	sentinels map[*ssa.Global]Value
 	timeLocs  map[string]*Value // time.Local / time.UTC singletons
 
-	ss          *schedState
-	callDepth   int
-	curInstr    ssa.Instruction
-	curFn       *ssa.Function
-	wantWitness bool
-	trace       bool
-	envTrace    []int64
-	strace      []TraceEv
-	libPrio     bool
-	raceChecks  int
+	ss            *schedState
+	callDepth     int
+	curInstr      ssa.Instruction
+	curFn         *ssa.Function
+	wantWitness   bool
+	trace         bool
+	envTrace      []int64
+	strace        []TraceEv
+	libPrio       bool
+	raceChecks    int
 	cross         *Solver // second solver for differential checks of discharged obligations (thorough tier)
 	crossRate     int
 	crossChecked  int
@@ -573,8 +577,27 @@ func (e *Exec) altCheck(extra *Term) (Result, Model) {
 	for _, t := range e.pc {
 		e.alt.Assert(e.ctx, t)
 	}
-	return e.alt.Check(e.ctx, []*Term{extra}, true, e.nondet)
+	r, m := e.alt.Check(e.ctx, []*Term{extra}, true, e.nondet)
+	if r != Unknown {
+		return r, m
+	}
+	// last resort (a loaded machine can push a query that normally takes a few seconds past
+	// the per-query limit): once more, from scratch, on the newer z3 with four times the limit
+	lr, err := NewSolver("z3-new", 4*e.alt.timeoutMs)
+	if err != nil {
+		return r, m
+	}
+	defer lr.Close()
+	lr.BeginPath()
+	for _, t := range e.pc {
+		lr.Assert(e.ctx, t)
+	}
+	lastResortQueries.Add(1)
+	return lr.Check(e.ctx, []*Term{extra}, true, e.nondet)
 }
+
+// lastResortQueries counts queries that needed the last-resort solver (reported in the evidence).
+var lastResortQueries atomic.Int64
 
 func (e *Exec) fail(kind, msg string, m Model) {
 	f := &Failure{Kind: kind, Msg: msg, Site: e.curSite(), Model: m, Decs: append([]Dec{}, e.decs...)}
@@ -600,4 +623,38 @@ func (e *Exec) newVar(w int, kind string) *Term {
 
 func (e *Exec) unsupported(format string, args ...interface{}) {
 	panic(abortf("unsupported", format+" at "+e.curSite(), args...))
+}
+
+// memPressure is set by the watchdog started in cmdCheck while the engine's heap is above its
+// budget (half of the machine's memory, GOSYM_MEM_GB overrides): long-running paths then end as
+// if they had exceeded their step bound instead of taking the whole check down.
+var memPressure atomic.Bool
+
+func startMemWatchdog() {
+	budget := uint64(16) << 30
+	if data, err := os.ReadFile("/proc/meminfo"); err == nil {
+		var kb uint64
+		if _, err := fmt.Sscanf(string(data), "MemTotal: %d kB", &kb); err == nil && kb > 0 {
+			budget = kb * 1024 / 2
+		}
+	}
+	if v := os.Getenv("GOSYM_MEM_GB"); v != "" {
+		var gb uint64
+		if _, err := fmt.Sscanf(v, "%d", &gb); err == nil && gb > 0 {
+			budget = gb << 30
+		}
+	}
+	go func() {
+		var ms runtime.MemStats
+		for {
+			time.Sleep(500 * time.Millisecond)
+			runtime.ReadMemStats(&ms)
+			if ms.HeapAlloc > budget {
+				memPressure.Store(true)
+				runtime.GC()
+			} else if ms.HeapAlloc < budget/2 {
+				memPressure.Store(false)
+			}
+		}
+	}()
 }
